@@ -43,6 +43,16 @@ RULES = {
     "C02": "family caching: per (graph, dictionary): body runs per cached dataset in one evaluation <= the specification's distinct "
            "demands (Permit); effects only after their body; then exact repeat / added+changed unmentioned keys / permuted key order "
            "must run no cached body and no effect and return the same value; non-trivial = the first evaluation succeeded",
+    "C06": "families combinators + caching with recording bodies / apply functions / bind functions / callbacks / effects: building "
+           "the graph runs nothing; during evaluate, validate, keys and explain (fresh graph each) every callable that runs belongs "
+           "to a node in the specification's Visit set (the selected path: no unselected switch/case/overload branch, no coalesce "
+           "member after the first success, no default of a present option); non-trivial = the graph has callables off the selected path",
+    "C12": "family failing: graphs over datasets / cached / apply / switch / coalesce / collections whose bodies, apply functions, "
+           "callbacks and effects raise on chosen inputs (the specification's Raises), each replayed with four exception types "
+           "(a harness exception, KeyError, RuntimeError, an EvaluationError subclass raised by user code); at the public boundary: "
+           "EvaluationError, .source is the object called, the cause chain ends in the original exception object / names the "
+           "specification's missing key; then all dictionaries of the graph in several orders on one long-lived instance: every "
+           "outcome equals a fresh copy's (a failure stored nothing); non-trivial = the evaluation fails",
     "C03": "same CASE export grouped by graph: keys() present-only; evaluate()/keys() on the dictionary restricted to keys() (the "
            "specification's Restrict) unchanged; for ALL pairs of dictionaries of a graph the fingerprints are equal iff reported "
            "keys and their values are equal (this enumerates every change/delete/add perturbation inside the universe); "
@@ -80,6 +90,23 @@ FAMILIES = {
                            dict(mode="sim", max_nodes=6, min_nodes=3, num=60000, depth=18, procs=12)]},
         shards=[["ds"], ["cached"], ["with"], ["fnapp"]],
         shard_defs={"ds": "SK_ds", "cached": "SK_cached", "with": "SK_with", "fnapp": "SK_leafish"}),
+    "failing": dict(
+        consts=dict(Raises="FR_Raises", Kinds="FR_Kinds", Paths="FR_Paths", Consts="FR_Consts", Tmpls="None0",
+                    Fns="FR_Fns", Bodies="FR_Bodies", DispVals="FR_Disp", Preds="FR_Preds", Presets="None0",
+                    MapPaths="None0", Leaves="FR_Leaves", Cbs="FR_Cbs", EffSets="FR_Effs"),
+        sharing=False,
+        runs={"quick": [dict(mode="bfs", max_nodes=3), dict(mode="sim", max_nodes=5, min_nodes=3, num=8000, depth=16, procs=8)],
+              "thorough": [dict(mode="bfs", max_nodes=4), dict(mode="sim", max_nodes=6, min_nodes=3, num=40000, depth=18, procs=12)]},
+        shards=[["ds"], ["cached"], ["apply"], ["switch"], ["coalesce"], ["coll"], ["fnapp"], ["bind"], ["case"]],
+        shard_defs={"ds": "SK_ds", "cached": "SK_cached", "apply": "SK_apply", "switch": "SK_switch", "bind": "SK_bind",
+                    "case": "SK_case", "coalesce": "SK_coalesce", "coll": "SK_coll", "fnapp": "SK_leafish"}),
+    "failing4": dict(
+        consts=dict(Raises="FR_Raises", Kinds="FR4_Kinds", Paths="FR4_Paths", Consts="None0", Tmpls="None0",
+                    Fns="None0", Bodies="FR_Bodies", DispVals="NoSeq", Preds="None0", Presets="None0",
+                    MapPaths="None0", Leaves="FR_Leaves"),
+        sharing=False,
+        runs={"quick": [dict(mode="bfs", max_nodes=4)], "thorough": [dict(mode="bfs", max_nodes=5)]},
+        shards=[["cached"], ["coalesce"]], shard_defs={"cached": "SK_cached", "coalesce": "SK_coalesce"}),
     "options": dict(
         consts=dict(Raises="NoRaises", Kinds="FO_Kinds", Paths="FO_Paths", Consts="FO_Consts", Tmpls="FO_Tmpls",
                     Fns="None0", Bodies="FO_Bodies", DispVals="NoSeq", Preds="FO_Preds", Presets="None0",
@@ -315,7 +342,7 @@ def check(prop, tier, fams, level_rule, assumptions):
             allviol.extend(viol)
     allviol.sort(key=lambda v: (len(canon(v[2]["nodes"])), len(canon(v[2]["a"]["o"])), canon(v[2])))
     for clause, detail, case in allviol:
-        sig = verdicts.signature(prop, clause, case)
+        sig = verdicts.signature(prop, clause, case, detail)
         rep.violation(sig, {"kind": "expr", "prop": prop, "clause": clause, "detail": detail, "case": case})
     if allviol and os.environ.get("VERIF_VERBOSE"):
         summarize(allviol)
